@@ -23,6 +23,20 @@ GenContent(n, nl) == [k \in 1 .. n |-> IF k = nl THEN 10 ELSE 97 + ((k * 7 + (k 
 OpNewFromFpGen(sl, re, n, nl, tr) == /\ sl \in Slots /\ Ctor(sl, re, "_from_fp_gen", <<n, nl, tr>>, LineText(GenContent(n, nl)))
 OpNewFromFdGen(sl, re, n, nl, tr) == /\ sl \in Slots /\ Ctor(sl, re, "_from_fd_gen", <<n, nl, tr>>, GenContent(n, nl))
 
+OpNewFromBuffGen(sl, re, m, size) == /\ sl \in Slots /\ m < size      \* a size-byte buffer: m generated characters, then NULs
+                                     /\ Ctor(sl, re, "_from_buff_gen", <<m, size>>, GenContent(m, 0))
+OpSprintfSGen(sl, n) == /\ Live(sl) /\ MutE(sl, "sprintf_s_gen", <<n>>, TRUE, n = 0, GenContent(n, 0))      \* "%s" with n generated characters
+
+\* Bursts "<op>_n k args": k consecutive calls of the same operation, observed after the last one (the harness checks the
+\* representation invariants after every single call).  The value is the k-fold application of the one-call action.
+RepT(t, k) == [i \in 1 .. (k * Len(t)) |-> t[((i - 1) % Len(t)) + 1]]
+OpAppendCharN(sl, k, c)  == /\ Live(sl) /\ k >= 0 /\ Mut(sl, "append_char_n", <<k, c>>, TRUE, Txt(sl) \o RepT(<<c>>, k))
+OpPrependCharN(sl, k, c) == /\ Live(sl) /\ k >= 0 /\ Mut(sl, "prepend_char_n", <<k, c>>, TRUE, RepT(<<c>>, k) \o Txt(sl))
+OpAppendPtrN(sl, k, t)   == /\ Live(sl) /\ k >= 0 /\ Mut(sl, "append_from_ptr_n", <<k, t>>, TRUE, Txt(sl) \o RepT(t, k))
+OpPrependPtrN(sl, k, t)  == /\ Live(sl) /\ k >= 0 /\ Mut(sl, "prepend_from_ptr_n", <<k, t>>, TRUE, RepT(t, k) \o Txt(sl))
+OpAppendObjN(sl, k)      == /\ Live(sl) /\ k >= 0 /\ HasOther(sl) /\ Mut(sl, "append_n", <<k>>, TRUE, Txt(sl) \o RepT(Other(sl), k))
+OpPrependObjN(sl, k)     == /\ Live(sl) /\ k >= 0 /\ HasOther(sl) /\ Mut(sl, "prepend_n", <<k>>, TRUE, RepT(Other(sl), k) \o Txt(sl))
+
 CtorStep(sl, o, re, g) ==
     \/ o = "" /\ OpNew(sl, re)
     \/ o = "_from_ptr" /\ OpNewFromPtr(sl, re, g[1])
@@ -34,6 +48,7 @@ CtorStep(sl, o, re, g) ==
     \/ o = "_from_fd" /\ OpNewFromFd(sl, re, g[1], g[2])
     \/ o = "_from_fp_gen" /\ OpNewFromFpGen(sl, re, g[1], g[2], g[3])
     \/ o = "_from_fd_gen" /\ OpNewFromFdGen(sl, re, g[1], g[2], g[3])
+    \/ o = "_from_buff_gen" /\ OpNewFromBuffGen(sl, re, g[1], g[2])
 
 TraceInit == Init /\ l = 1
 TraceStep ==
@@ -42,7 +57,7 @@ TraceStep ==
     /\ LET sl == ev.sl  o == ev.bop  g == ev.args IN
        \/ o = "reset" /\ a' = <<>> /\ al' = FALSE /\ b' = <<>> /\ bl' = FALSE
        \/ \E k \in {"", "_from_ptr", "_from_ptr_null", "_from_buff", "_from_buff_null", "_from_num", "_from_fp", "_from_fd",
-                    "_from_fp_gen", "_from_fd_gen"} :
+                    "_from_fp_gen", "_from_fd_gen", "_from_buff_gen"} :
              \/ o = "new" \o k /\ CtorStep(sl, k, FALSE, g)
              \/ o = "re" \o k /\ CtorStep(sl, k, TRUE, g)
        \/ o = "done" /\ OpDone(sl)
@@ -68,6 +83,13 @@ TraceStep ==
        \/ o = "sprintf_lit" /\ OpSprintfLit(sl, g[1])
        \/ o = "sprintf_s" /\ OpSprintfS(sl, g[1])
        \/ o = "sprintf_d" /\ OpSprintfD(sl, g[1])
+       \/ o = "sprintf_s_gen" /\ OpSprintfSGen(sl, g[1])
+       \/ o = "append_char_n" /\ OpAppendCharN(sl, g[1], g[2])
+       \/ o = "prepend_char_n" /\ OpPrependCharN(sl, g[1], g[2])
+       \/ o = "append_from_ptr_n" /\ OpAppendPtrN(sl, g[1], g[2])
+       \/ o = "prepend_from_ptr_n" /\ OpPrependPtrN(sl, g[1], g[2])
+       \/ o = "append_n" /\ OpAppendObjN(sl, g[1])
+       \/ o = "prepend_n" /\ OpPrependObjN(sl, g[1])
        \/ o = "sprintf_sd" /\ OpSprintfSD(sl, g[1], g[2])
        \/ o = "len" /\ OpLen(sl)
        \/ o = "index" /\ OpIndex(sl, g[1])
